@@ -374,6 +374,19 @@ func runBatch(spec PropSpec, ph Phase, tier string, seed uint64, work string, b,
 		a.crashes++
 		a.mu.Unlock()
 		key, desc := classifyCrash(stderrTxt, runaway)
+		if runaway != "" && strings.HasPrefix(key, "runaway@?:") {
+			// the budget ran out while no library function was executing: the harness's own work (comparing, rendering) on
+			// this case was too expensive. That says nothing about the property either way.
+			a.mu.Lock()
+			a.crashes--
+			a.inconcl = append(a.inconcl, fmt.Sprintf("phase=%s batch=%d case=%d the case exceeded its budget inside the harness (no library frame running): %s", ph.Name, b, last, runaway))
+			a.mu.Unlock()
+			if !open && !done {
+				break
+			}
+			start = int(last) + 1
+			continue
+		}
 		rp := ReplayPath(spec.ID, key, b, last)
 		os.MkdirAll(filepath.Dir(rp), 0o755)
 		r := Replay{Prop: spec.ID, Phase: ph.Name, Tier: tier, Seed: seed, Batch: b, NBatch: n, Case: last, Key: key, Desc: desc,
